@@ -73,6 +73,11 @@ def grid_cases(rng, tier):
         [fb, 0.7 * fb, 0.45 * fb, 0.85 * fb], gap_model='flow',
         bypass_fraction=0.03,
         setup={'include_gravity_head_loss': True})))
+    from harness import scenarios as _sc
+    _sl = dict(_sc.single_lattice(rng, 'quick'))
+    for k in ('opt-dd-regions-adiabatic-gravity', 'opt-uctd-grid-regions',
+              'opt-se2geo', 'opt-3duct-convapprox'):
+        out.append((k, _sl[k]))
     if tier == 'thorough':
         for i in range(8):
             n = rng.choice([2, 3])
